@@ -56,7 +56,7 @@ MUTANTS = [
  dict(id="C06", name="acq_rel_pairs_benign", expect=0, edits=[(TL, "    ring->write = next_write;", "    ring->write.store(next_write, std::memory_order_release);"),
      (TL, "static size_t ring_read_size(ringbuffer_t *ring, bool lookahead)\n{\n    const size_t w = ring->write;", "static size_t ring_read_size(ringbuffer_t *ring, bool lookahead)\n{\n    const size_t w = ring->write.load(std::memory_order_acquire);")]),
  dict(id="C06", name="write_index_not_atomic", edits=[(TL, "    std::atomic<off_t> write;", "    volatile off_t write;")]),
- dict(id="C06", name="raw_oversize_accepted", edits=[(TL, "    if(len <= MaxMsg && ring_write_size(ring) >= len)", "    if(ring_write_size(ring) >= len)")]),
+ dict(id="C06", name="raw_oversize_accepted", edits=[(TL, "    if(len <= MaxMsg && ring_write_size(ring) >= len+tail)", "    if(ring_write_size(ring) >= len+tail)")]),
  dict(id="C06", name="fit_test_strict_in_write_only", edits=[(TL, "    if(ring_write_size(ring) >= len)\n        ring_write(ring,write_buffer,len);\n}\n\nvoid ThreadLink::writeArray", "    if(ring_write_size(ring) > len)\n        ring_write(ring,write_buffer,len);\n}\n\nvoid ThreadLink::writeArray")]),
  dict(id="C06", name="drop_check_removed", edits=[(TL, "    if(ring_write_size(ring) >= len)\n        ring_write(ring,write_buffer,len);\n}\n\nvoid ThreadLink::writeArray", "    ring_write(ring,write_buffer,len);\n}\n\nvoid ThreadLink::writeArray")]),
  dict(id="C06", name="write_size_stale_read_swap", edits=[(TL, "    const off_t  next_write = (ring->write + len)%ring->size;", "    const off_t  next_write = (ring->write + len + (len==12?4:0))%ring->size;")]),
@@ -231,10 +231,10 @@ MUTANTS = [
  dict(id="C03", name="wide_variadic_message_on_the_heap", edits=[(RC, "    STACKALLOC(rtosc_arg_t, args, nargs);\n    rtosc_va_list_t ap2;\n    va_copy(ap2.a, ap);\n    rtosc_v2args(args, nargs, arguments, &ap2);", "    rtosc_arg_t args_fixed[32];\n    rtosc_arg_t *args = nargs > 32 ? (rtosc_arg_t*)malloc(nargs*sizeof(rtosc_arg_t)) : args_fixed;\n    rtosc_va_list_t ap2;\n    va_copy(ap2.a, ap);\n    rtosc_v2args(args, nargs, arguments, &ap2);\n    if(nargs > 32) { size_t r_ = rtosc_amessage(buffer,len,address,arguments,args); free(args); return r_; }")]),
  dict(id="C12", name="toggle_arrays_of_mixed_first_type_differ", edits=[("src/cpp/arg-val-cmp.c", "               && !(rtosc_av_arr_type(_lhs) == 'F' && rtosc_av_arr_type(_rhs) == 'T'))\n", "               && !(rtosc_av_arr_type(_lhs) == 'F' && rtosc_av_arr_type(_lhs) == 'T'))\n")]),
  # ---- the apropos look-up serves four properties
- dict(id="C13", name="apropos_first_prefix_wins", edits=[(PC, '    for(const Port &port: ports)\n        if(*path && rtosc_match_path(port.name, path, NULL))\n            return &port;\n    for(const Port &port: ports)\n        if(*path && strstr(port.name, path)==port.name)\n            return &port;\n', '    for(const Port &port: ports)\n        if(*path && (strstr(port.name, path)==port.name ||\n                    rtosc_match_path(port.name, path, NULL)))\n            return &port;\n')]),
- dict(id="C19", name="apropos_first_prefix_wins", edits=[(PC, '    for(const Port &port: ports)\n        if(*path && rtosc_match_path(port.name, path, NULL))\n            return &port;\n    for(const Port &port: ports)\n        if(*path && strstr(port.name, path)==port.name)\n            return &port;\n', '    for(const Port &port: ports)\n        if(*path && (strstr(port.name, path)==port.name ||\n                    rtosc_match_path(port.name, path, NULL)))\n            return &port;\n')]),
- dict(id="C20", name="apropos_first_prefix_wins", edits=[(PC, '    for(const Port &port: ports)\n        if(*path && rtosc_match_path(port.name, path, NULL))\n            return &port;\n    for(const Port &port: ports)\n        if(*path && strstr(port.name, path)==port.name)\n            return &port;\n', '    for(const Port &port: ports)\n        if(*path && (strstr(port.name, path)==port.name ||\n                    rtosc_match_path(port.name, path, NULL)))\n            return &port;\n')]),
- dict(id="C12", name="apropos_first_prefix_wins", edits=[(PC, '    for(const Port &port: ports)\n        if(*path && rtosc_match_path(port.name, path, NULL))\n            return &port;\n    for(const Port &port: ports)\n        if(*path && strstr(port.name, path)==port.name)\n            return &port;\n', '    for(const Port &port: ports)\n        if(*path && (strstr(port.name, path)==port.name ||\n                    rtosc_match_path(port.name, path, NULL)))\n            return &port;\n')]),
+ dict(id="C13", name="apropos_first_prefix_wins", edits=[(PC, '    for(const Port &port: ports)\n        if(*path && rtosc_match_path(port.name, path, NULL))\n            return &port;\n', '    for(const Port &port: ports)\n        if(*path && (strstr(port.name, path)==port.name ||\n                    rtosc_match_path(port.name, path, NULL)))\n            return &port;\n')]),
+ dict(id="C19", name="apropos_first_prefix_wins", edits=[(PC, '    for(const Port &port: ports)\n        if(*path && rtosc_match_path(port.name, path, NULL))\n            return &port;\n', '    for(const Port &port: ports)\n        if(*path && (strstr(port.name, path)==port.name ||\n                    rtosc_match_path(port.name, path, NULL)))\n            return &port;\n')]),
+ dict(id="C20", name="apropos_first_prefix_wins", edits=[(PC, '    for(const Port &port: ports)\n        if(*path && rtosc_match_path(port.name, path, NULL))\n            return &port;\n', '    for(const Port &port: ports)\n        if(*path && (strstr(port.name, path)==port.name ||\n                    rtosc_match_path(port.name, path, NULL)))\n            return &port;\n')]),
+ dict(id="C12", name="apropos_first_prefix_wins", edits=[(PC, '    for(const Port &port: ports)\n        if(*path && rtosc_match_path(port.name, path, NULL))\n            return &port;\n', '    for(const Port &port: ports)\n        if(*path && (strstr(port.name, path)==port.name ||\n                    rtosc_match_path(port.name, path, NULL)))\n            return &port;\n')]),
  dict(id="C13", name="depends_list_empty_entry_scanned", edits=[(SF, "                    if(!*enabled_by) // rDepends() ends its list with a ','\n                        break;\n", "")]),
  dict(id="C13", name="self_enabled_by_ignored", edits=[(SF, "        if(!is_leaf_level && port && port->ports)\n", "        if(false && port && port->ports)\n")]),
  dict(id="C15", name="set_message_in_a_256_byte_buffer", edits=[(UH, "    std::vector<char> res(rtosc_amessage(NULL, 0, addr, types, &arg));\n", "    std::vector<char> res(256);\n")]),
